@@ -197,6 +197,10 @@ struct Node {
     path: Option<Arc<PathNode>>,
 }
 
+pub fn max_frontier() -> usize {
+    std::env::var("VERIF_MAX_FRONTIER").ok().and_then(|s| s.parse().ok()).unwrap_or(1_200_000)
+}
+
 pub struct BfsStats {
     pub levels: Vec<usize>,
     pub states: usize,
@@ -298,6 +302,12 @@ where
             // the last level is counted (and every transition into it was judged) but not materialised
             break;
         }
+        if n_new > max_frontier() {
+            // materialising this level would need too much memory: stop here and say so
+            capped = true;
+            c.cap(format!("bfs frontier cap: level {} has {} new states (> {}), not expanded further", levels.len() - 1, n_new, max_frontier()));
+            break;
+        }
         // pass 2: materialise the new states only
         let next: Vec<Vec<Node>> = par_map(fr.len(), |i| {
             let w = &winners[i];
@@ -318,7 +328,7 @@ where
         });
         frontier = next.into_iter().flatten().collect();
     }
-    if capped {
+    if capped && seen.len() >= max_states {
         c.cap(format!("bfs state cap {} reached at level {}", max_states, levels.len() - 1));
     }
     if let Some((seed, path)) = deepest {
